@@ -361,6 +361,12 @@ pub fn record_jets(per_jet: usize, path: &str) {
     for j in Core::ALL.iter() {
         let (src, tgt) = (j.source_ty().to_final(), j.target_ty().to_final());
         if !flat(&src) || !flat(&tgt) || src.bit_width() > 2048 { continue; }
+        // specified through an inversion or a scalar multiplication (minutes per input in TLC): record_ec_jets picks their inputs
+        let name = j.to_string();
+        if ["gej_y_is_odd", "generate", "linear_combination_1", "scale", "linear_verify_1", "point_verify_1", "bip_0340_verify", "check_sig_verify"].contains(&name.as_str()) { continue; }
+        // the secp256k1 jets cost TLC a few hundred limb products per input
+        let ec = ["fe_", "ge_", "gej_", "scalar_", "linear_", "point_", "bip_", "check_sig", "swu", "hash_to"].iter().any(|p| name.starts_with(p));
+        let per_jet = if ec { 2 + per_jet / 6 } else { per_jet };
         let n = src.bit_width();
         let mut inputs: Vec<Vec<bool>> = vec![vec![false; n], vec![true; n]];
         if n > 0 {
@@ -390,6 +396,452 @@ pub fn record_jets(per_jet: usize, path: &str) {
             })).unwrap_or_else(|p| json!(format!("panic: {}", p)));
             out.emit(&json!({"ev": "jet", "name": j.to_string(), "in": bits_j(bits.iter().copied()), "out": res}));
         }
+    }
+    out.flush();
+}
+
+/// impl -> spec for the hashing / parsing jets of JetLib.tla (sums in their types, so inputs and outputs are
+/// logged in the padded layout): sha_256_iv, sha_256_block, the sha_256_ctx_8_* family, tapdata_init, parse_lock,
+/// parse_sequence.  Contexts are synthesised (any buffer occupancy, block counts around the 2^55 limit) and also
+/// produced by chains init -> add_* -> finalize whose intermediate contexts are fed back in.
+pub fn record_hash_jets(per_jet: usize, path: &str) {
+    use simplicity::jet::{Core, CoreEnv, Jet};
+    use simplicity::node::CoreConstructible;
+    let mut rng = Rng::from_env(56);
+    let mut out = Out::file(path);
+    let env = CoreEnv::new();
+    // run one jet on an input given in compact bits; log padded input and padded output; return the output value
+    let mut run = |j: Core, compact: &[bool], out: &mut Out| -> Option<Value> {
+        let src = j.source_ty().to_final();
+        let bytes = bytes_from_bits(compact);
+        let input = Value::from_compact_bits(&mut simplicity::BitIter::from(&bytes[..]), &src).expect("input");
+        let inp = input.clone();
+        let res = guarded(|| types::Context::with_context(|ctx| {
+            let node = CN::jet(&ctx, &j);
+            let rn = node.finalize_unpruned().expect("one-jet program");
+            let mut mac = BitMachine::for_program(&rn).expect("machine");
+            mac.input(&inp).expect("input");
+            mac.exec(&rn, &env).ok()
+        }));
+        let (o, v) = match res {
+            Ok(Some(v)) => (bits_j(v.iter_padded()), Some(v)),
+            Ok(None) => (json!("jetfailed"), None),
+            Err(p) => (json!(format!("panic: {}", p)), None),
+        };
+        out.emit(&json!({"ev": "jet", "name": j.to_string(), "in": bits_j(input.iter_padded()), "out": o}));
+        v
+    };
+    fn rand_bits(rng: &mut Rng, n: usize) -> Vec<bool> { (0..n).map(|_| rng.bool()).collect() }
+    fn u64_bits(x: u64) -> Vec<bool> { (0..64).rev().map(|i| (x >> i) & 1 == 1).collect() }
+    // a buffer (2^8)^<2^(n+1) in compact bits: tag, then the chunk if present
+    fn buffer(rng: &mut Rng, n: u32, fill: Option<bool>) -> Vec<bool> {
+        let mut v = vec![];
+        for i in (0..=n).rev() {
+            let t = fill.unwrap_or_else(|| rng.bool());
+            v.push(t);
+            if t { v.extend(rand_bits(rng, 8 << i)); }
+        }
+        v
+    }
+    let limit = 1u64 << 55;
+    let counts = |rng: &mut Rng| -> Vec<u64> { vec![0, 1, limit - 1, limit - 2, limit, rng.next_u64(), rng.next_u64() % (1 << 20)] };
+    let ctx = |rng: &mut Rng, cc: u64, fill: Option<bool>| -> Vec<bool> {
+        let mut v = buffer(rng, 5, fill);
+        v.extend(u64_bits(cc));
+        v.extend(rand_bits(rng, 256));
+        v
+    };
+    let by_name = |n: &str| -> Core { *Core::ALL.iter().find(|j| j.to_string() == n).unwrap_or_else(|| panic!("no jet {}", n)) };
+    let adds: Vec<(usize, Core)> = (0..10).map(|k| (1usize << k, by_name(&format!("sha_256_ctx_8_add_{}", 1 << k)))).collect();
+    run(by_name("sha_256_iv"), &[], &mut out);
+    run(by_name("sha_256_ctx_8_init"), &[], &mut out);
+    run(by_name("tapdata_init"), &[], &mut out);
+    for k in 0..per_jet + 2 {
+        let bits = match k { 0 => vec![false; 768], 1 => vec![true; 768], _ => rand_bits(&mut rng, 768) };
+        run(by_name("sha_256_block"), &bits, &mut out);
+    }
+    for x in [0u32, 1, 499_999_999, 500_000_000, 500_000_001, 0x7fff_ffff, 0x8000_0000, 0xffff_ffff, 0x0040_0000, 0x0040_ffff, 0x003f_ffff, 0x8040_0001]
+        .into_iter().chain((0..4 * per_jet).map(|_| rng.next_u64() as u32).collect::<Vec<_>>()) {
+        let bits: Vec<bool> = (0..32).rev().map(|i| (x >> i) & 1 == 1).collect();
+        run(by_name("parse_lock"), &bits, &mut out);
+        run(by_name("parse_sequence"), &bits, &mut out);
+    }
+    // synthesised contexts
+    for (n, j) in &adds {
+        let reps = if *n >= 128 { 1 + per_jet / 4 } else { per_jet };
+        for r in 0..reps {
+            for cc in counts(&mut rng) {
+                // around the limit only full and empty buffers matter; elsewhere any occupancy
+                let fill = if cc >= limit - 2 && cc <= limit { Some(r % 2 == 0) } else { None };
+                if *n >= 128 && cc > (1 << 20) && cc < limit - 2 { continue; }
+                let mut v = ctx(&mut rng, cc, fill);
+                v.extend(rand_bits(&mut rng, 8 * n));
+                run(*j, &v, &mut out);
+            }
+        }
+    }
+    for r in 0..per_jet {
+        for cc in counts(&mut rng) {
+            let fill = if cc >= limit - 2 && cc <= limit { Some(r % 2 == 0) } else { None };
+            run(by_name("sha_256_ctx_8_finalize"), &ctx(&mut rng, cc, fill), &mut out);
+        }
+        for cc in [0, limit - 1, rng.next_u64() % (1 << 20)] {
+            let mut v = ctx(&mut rng, cc, None);
+            v.extend(buffer(&mut rng, 8, if r == 0 { Some(true) } else { None }));
+            run(by_name("sha_256_ctx_8_add_buffer_511"), &v, &mut out);
+        }
+    }
+    // chains: the context a jet returned is the next jet's input
+    for c in 0..per_jet + 1 {
+        let start = if c % 3 == 2 { "tapdata_init" } else { "sha_256_ctx_8_init" };
+        let mut cur = run(by_name(start), &[], &mut out).expect("init");
+        for _ in 0..rng.range(1, 5) {
+            let (n, j) = adds[rng.below(if c == 0 { 10 } else { 7 })];
+            let mut v: Vec<bool> = cur.iter_compact().collect();
+            v.extend(rand_bits(&mut rng, 8 * n));
+            match run(j, &v, &mut out) { Some(x) => cur = x, None => break }
+        }
+        let v: Vec<bool> = cur.iter_compact().collect();
+        run(by_name("sha_256_ctx_8_finalize"), &v, &mut out);
+    }
+    out.flush();
+}
+
+/// impl -> spec for the secp256k1 jets of JetLib.tla that need meaningful inputs: points on the curve (obtained
+/// from the `generate` jet itself and re-scaled to non-trivial z), points at infinity, equal / opposite points,
+/// small scalars for the jets whose specification multiplies a point, squares and non-squares for the roots.
+/// The field and scalar jets with flat types are covered by `record_jets` on patterned and random inputs.
+pub fn record_ec_jets(per_jet: usize, path: &str) {
+    use simplicity::jet::{Core, CoreEnv, Jet};
+    use simplicity::node::CoreConstructible;
+    let mut rng = Rng::from_env(57);
+    let mut out = Out::file(path);
+    let env = CoreEnv::new();
+    type Bits = Vec<bool>;
+    let mut run = |name: &str, compact: &[bool], log: bool, out: &mut Out| -> Option<Bits> {
+        let j = *Core::ALL.iter().find(|j| j.to_string() == name).unwrap_or_else(|| panic!("no jet {}", name));
+        let src = j.source_ty().to_final();
+        let bytes = bytes_from_bits(compact);
+        let input = Value::from_compact_bits(&mut simplicity::BitIter::from(&bytes[..]), &src).expect("input");
+        let inp = input.clone();
+        let res = guarded(|| types::Context::with_context(|ctx| {
+            let node = CN::jet(&ctx, &j);
+            let rn = node.finalize_unpruned().expect("one-jet program");
+            let mut mac = BitMachine::for_program(&rn).expect("machine");
+            mac.input(&inp).expect("input");
+            mac.exec(&rn, &env).ok()
+        }));
+        let (o, v) = match res {
+            Ok(Some(v)) => (bits_j(v.iter_padded()), Some(v.iter_padded().collect::<Bits>())),
+            Ok(None) => (json!("jetfailed"), None),
+            Err(p) => (json!(format!("panic: {}", p)), None),
+        };
+        if log { out.emit(&json!({"ev": "jet", "name": name, "in": bits_j(input.iter_padded()), "out": o})); }
+        v
+    };
+    fn rand_bits(rng: &mut Rng, n: usize) -> Bits { (0..n).map(|_| rng.bool()).collect() }
+    fn small(x: u64) -> Bits { let mut v = vec![false; 192]; v.extend((0..64).rev().map(|i| (x >> i) & 1 == 1)); v }
+    fn cat(parts: &[&Bits]) -> Bits { parts.iter().flat_map(|p| p.iter().copied()).collect() }
+    let zero = vec![false; 256];
+    let ones = vec![true; 256];
+    // the pool: on-curve Jacobian points with z = 1 (from generate, not logged), re-scaled copies, their affine forms
+    let mut pool: Vec<Bits> = vec![];
+    for _ in 0..(3 + per_jet) {
+        let p = run("generate", &rand_bits(&mut rng, 256), false, &mut out).expect("generate");
+        let c = rand_bits(&mut rng, 256);
+        let q = run("gej_rescale", &cat(&[&p, &c]), true, &mut out).expect("rescale");
+        pool.push(p);
+        pool.push(q);
+    }
+    let neg = |p: &Bits, out: &mut Out, run: &mut dyn FnMut(&str, &[bool], bool, &mut Out) -> Option<Bits>| run("gej_negate", p, true, out).expect("negate");
+    let inf: Bits = cat(&[&rand_bits(&mut rng, 512), &zero]);
+    let inf0: Bits = vec![false; 768];
+    let off: Bits = rand_bits(&mut rng, 768);
+    // y = 0: satisfies no curve equation, but makes the doubling / cancelling branches of the formulas visible
+    let yzero: Bits = cat(&[&rand_bits(&mut rng, 256), &zero, &small(1)]);
+    let affine = |p: &Bits, out: &mut Out, run: &mut dyn FnMut(&str, &[bool], bool, &mut Out) -> Option<Bits>| -> Bits {
+        let n = run("gej_normalize", p, true, out).expect("normalize");
+        n[1..].to_vec()
+    };
+    run("gej_infinity", &[], true, &mut out);
+    let n = pool.len();
+    let mut singles: Vec<Bits> = pool.clone();
+    singles.extend([inf.clone(), inf0.clone(), off.clone(), yzero.clone(), vec![true; 768]]);
+    for p in &singles {
+        for name in ["gej_double", "gej_negate", "gej_is_on_curve", "gej_is_infinity", "gej_normalize"] { run(name, p, true, &mut out); }
+        run("gej_rescale", &cat(&[p, &rand_bits(&mut rng, 256)]), true, &mut out);
+        run("gej_rescale", &cat(&[p, &zero]), true, &mut out);
+    }
+    // pairs: different points, the same point in two representations, opposite points, infinity on either side
+    let mut pairs: Vec<(Bits, Bits)> = vec![];
+    for i in 0..n {
+        let p = pool[i].clone();
+        let q = pool[(i + 3) % n].clone();
+        let same = pool[i ^ 1].clone();
+        let np = neg(&same, &mut out, &mut run);
+        pairs.push((p.clone(), q));
+        pairs.push((p.clone(), same));
+        pairs.push((p.clone(), p.clone()));
+        pairs.push((p.clone(), np));
+        if i < 2 { pairs.push((p.clone(), inf.clone())); pairs.push((inf0.clone(), p.clone())); pairs.push((p.clone(), off.clone())); }
+    }
+    pairs.push((inf.clone(), inf0.clone()));
+    pairs.push((yzero.clone(), yzero.clone()));
+    pairs.push((off.clone(), off.clone()));
+    for (a, b) in &pairs {
+        run("gej_add", &cat(&[a, b]), true, &mut out);
+        run("gej_equiv", &cat(&[a, b]), true, &mut out);
+        // the affine form of b, where it has one
+        if b[512..].iter().any(|x| *x) && b != &off && b != &yzero {
+            let bg = affine(b, &mut out, &mut run);
+            for name in ["gej_ge_add", "gej_ge_add_ex", "gej_ge_equiv"] { run(name, &cat(&[a, &bg]), true, &mut out); }
+            let x: Bits = bg[..256].to_vec();
+            run("gej_x_equiv", &cat(&[&x, a]), true, &mut out);
+            run("ge_is_on_curve", &bg, true, &mut out);
+            run("ge_negate", &bg, true, &mut out);
+        }
+    }
+    run("gej_ge_add", &cat(&[&pool[0], &rand_bits(&mut rng, 512)]), true, &mut out);
+    run("gej_x_equiv", &cat(&[&rand_bits(&mut rng, 256), &pool[1]]), true, &mut out);
+    run("gej_x_equiv", &cat(&[&zero, &inf0]), true, &mut out);
+    run("ge_is_on_curve", &rand_bits(&mut rng, 512), true, &mut out);
+    run("ge_is_on_curve", &vec![false; 512], true, &mut out);
+    // the jets whose specification needs an inversion or a root (a quarter of a minute each in TLC): few inputs
+    let few = 1 + per_jet / 8;
+    for i in 0..few {
+        run("gej_y_is_odd", &pool[(2 * i + 1) % n], true, &mut out);
+        let bg = affine(&pool[(2 * i) % n], &mut out, &mut run);
+        let x: Bits = bg[..256].to_vec();
+        let parity = bg[511];
+        run("decompress", &cat(&[&vec![parity], &x]), true, &mut out);
+        run("decompress", &cat(&[&vec![!parity], &x]), true, &mut out);
+        run("decompress", &cat(&[&vec![rng.bool()], &rand_bits(&mut rng, 256)]), true, &mut out);
+        // a square (the y^2 of a point is x^3 + 7), a random element, the boundary values
+        let y: Bits = bg[256..].to_vec();
+        let sq = run("fe_square", &y, true, &mut out).expect("square");
+        run("fe_square_root", &sq, true, &mut out);
+        run("fe_square_root", &rand_bits(&mut rng, 256), true, &mut out);
+    }
+    run("gej_y_is_odd", &inf, true, &mut out);
+    run("fe_square_root", &zero, true, &mut out);
+    run("fe_square_root", &ones, true, &mut out);
+    // scalar multiplication: the specification doubles and adds over the scalar's bits, so the scalars are short
+    let scalars: Vec<u64> = vec![0, 1, 2, 3, 7, 255].into_iter().chain((0..few).map(|_| rng.next_u64() % 4096)).collect();
+    for k in &scalars { run("generate", &small(*k), true, &mut out); }
+    // the group order: n * G is the point at infinity (the scalar is reduced first, so this is scalar 0)
+    for (i, k) in scalars.iter().enumerate().take(3 + few) {
+        let a = &pool[i % n];
+        run("linear_combination_1", &cat(&[&small(*k), a, &small(scalars[(i + 2) % scalars.len()])]), true, &mut out);
+    }
+    // the verification forms: B = na * A + ng * G computed by linear_combination_1, normalised, then offered as the claim
+    for i in 0..(1 + few) {
+        let (na, ng) = (scalars[(i + 3) % scalars.len()], scalars[(i + 4) % scalars.len()]);
+        let a = pool[(2 * i) % n].clone();
+        let ag = affine(&a, &mut out, &mut run);
+        if let Some(b) = run("linear_combination_1", &cat(&[&small(na), &a, &small(ng)]), true, &mut out) {
+            if b[512..].iter().any(|x| *x) {
+                let bg = affine(&b, &mut out, &mut run);
+                run("linear_verify_1", &cat(&[&small(na), &ag, &small(ng), &bg]), true, &mut out);
+                run("linear_verify_1", &cat(&[&small(na + 1), &ag, &small(ng), &bg]), true, &mut out);
+                if i == 0 {
+                    let comp = |g: &Bits| -> Bits { let mut v = vec![g[511]]; v.extend(g[..256].iter().copied()); v };
+                    run("point_verify_1", &cat(&[&small(na), &comp(&ag), &small(ng), &comp(&bg)]), true, &mut out);
+                    let mut wrong = comp(&bg); wrong[0] = !wrong[0];
+                    run("point_verify_1", &cat(&[&small(na), &comp(&ag), &small(ng), &wrong]), true, &mut out);
+                }
+            }
+        }
+    }
+    for (i, k) in scalars.iter().enumerate().take(2 + few) { run("scale", &cat(&[&small(*k), &pool[(i + 1) % n]]), true, &mut out); }
+    run("scale", &cat(&[&small(3), &off]), true, &mut out);
+    run("scale", &cat(&[&small(3), &inf0]), true, &mut out);
+    run("linear_verify_1", &cat(&[&small(1), &rand_bits(&mut rng, 512), &small(1), &rand_bits(&mut rng, 512)]), true, &mut out);
+    run("linear_combination_1", &cat(&[&small(2), &off, &small(1)]), true, &mut out);
+    run("linear_combination_1", &cat(&[&small(2), &inf0, &small(3)]), true, &mut out);
+    out.flush();
+}
+
+/// impl -> spec for the signature and point verification jets (their specification multiplies points by full-size
+/// scalars: about a minute per accepted signature in TLC, so `valid` is small): valid BIP-340 signatures made with
+/// libsecp256k1's signer, the same with one bit of the key / message / signature changed, out-of-range r, s and keys.
+pub fn record_sig_jets(valid: usize, path: &str) {
+    use simplicity::elements::bitcoin::key::Keypair;
+    use simplicity::elements::secp256k1_zkp as secp;
+    use simplicity::jet::{Core, CoreEnv, Jet};
+    use simplicity::node::CoreConstructible;
+    use simplicity::hashes::{sha256, Hash, HashEngine};
+    let mut rng = Rng::from_env(58);
+    let mut out = Out::file(path);
+    let env = CoreEnv::new();
+    type Bits = Vec<bool>;
+    let mut run = |name: &str, compact: &[bool], out: &mut Out| -> Option<Bits> {
+        let j = *Core::ALL.iter().find(|j| j.to_string() == name).unwrap_or_else(|| panic!("no jet {}", name));
+        let src = j.source_ty().to_final();
+        let bytes = bytes_from_bits(compact);
+        let input = Value::from_compact_bits(&mut simplicity::BitIter::from(&bytes[..]), &src).expect("input");
+        let inp = input.clone();
+        let res = guarded(|| types::Context::with_context(|ctx| {
+            let node = CN::jet(&ctx, &j);
+            let rn = node.finalize_unpruned().expect("one-jet program");
+            let mut mac = BitMachine::for_program(&rn).expect("machine");
+            mac.input(&inp).expect("input");
+            mac.exec(&rn, &env).ok()
+        }));
+        let (o, v) = match res {
+            Ok(Some(v)) => (bits_j(v.iter_padded()), Some(v.iter_padded().collect::<Bits>())),
+            Ok(None) => (json!("jetfailed"), None),
+            Err(p) => (json!(format!("panic: {}", p)), None),
+        };
+        out.emit(&json!({"ev": "jet", "name": name, "in": bits_j(input.iter_padded()), "out": o}));
+        v
+    };
+    fn bits_of(bytes: &[u8]) -> Bits { bytes.iter().flat_map(|b| (0..8).rev().map(move |i| (b >> i) & 1 == 1)).collect() }
+    fn cat(parts: &[&Bits]) -> Bits { parts.iter().flat_map(|p| p.iter().copied()).collect() }
+    let ctx = secp::Secp256k1::new();
+    let p_bytes = { let mut v = vec![0xffu8; 32]; v[27] = 0xfe; v[28] = 0xff; v[29] = 0xff; v[30] = 0xfc; v[31] = 0x2f; v };
+    let tag = sha256::Hash::hash(b"Simplicity\x1fSignature");
+    for k in 0..valid.max(1) {
+        let mut sk = [0u8; 32];
+        for b in sk.iter_mut() { *b = rng.next_u64() as u8; }
+        sk[0] &= 0x7f; sk[31] |= 1;
+        let kp = Keypair::from_seckey_slice(&ctx, &sk).unwrap();
+        let pk = bits_of(&kp.x_only_public_key().0.serialize());
+        let mut m32 = [0u8; 32];
+        for b in m32.iter_mut() { *b = rng.next_u64() as u8; }
+        let mut m64 = [0u8; 64];
+        for b in m64.iter_mut() { *b = rng.next_u64() as u8; }
+        let sig = bits_of(ctx.sign_schnorr_no_aux_rand(&secp::Message::from_digest(m32), &kp).as_ref());
+        let mut eng = sha256::Hash::engine();
+        eng.input(tag.as_ref()); eng.input(tag.as_ref()); eng.input(&m64);
+        let digest = sha256::Hash::from_engine(eng).to_byte_array();
+        let sig64 = bits_of(ctx.sign_schnorr_no_aux_rand(&secp::Message::from_digest(digest), &kp).as_ref());
+        let (m32b, m64b) = (bits_of(&m32), bits_of(&m64));
+        if k < valid {
+            // accepted signatures (the expensive ones for the specification)
+            run("bip_0340_verify", &cat(&[&pk, &m32b, &sig]), &mut out);
+            if k % 2 == 0 { run("check_sig_verify", &cat(&[&pk, &m64b, &sig64]), &mut out); }
+        }
+        // rejected before any point multiplication: r = P, s = N (all ones is above both), a key that is no x coordinate or not reduced
+        let mut bad_r = sig.clone(); for (i, b) in bits_of(&p_bytes).into_iter().enumerate() { bad_r[i] = b; }
+        let mut bad_s = sig.clone(); for i in 256..512 { bad_s[i] = true; }
+        run("bip_0340_verify", &cat(&[&pk, &m32b, &bad_r]), &mut out);
+        run("bip_0340_verify", &cat(&[&pk, &m32b, &bad_s]), &mut out);
+        run("bip_0340_verify", &cat(&[&bits_of(&p_bytes), &m32b, &sig]), &mut out);
+        run("check_sig_verify", &cat(&[&vec![true; 256], &m64b, &sig64]), &mut out);
+        let mut off_key = pk.clone();
+        loop {          // a reduced x with no point: flip low bits until libsecp refuses the key
+            let i = 200 + rng.below(56); off_key[i] = !off_key[i];
+            if secp::XOnlyPublicKey::from_slice(&bytes_from_bits(&off_key)).is_err() { break; }
+        }
+        run("bip_0340_verify", &cat(&[&off_key, &m32b, &sig]), &mut out);
+        if k < valid && k % 2 == 1 {
+            // rejected at the end: one bit of the message changed
+            let mut m2 = m32b.clone(); let i = rng.below(256); m2[i] = !m2[i];
+            run("bip_0340_verify", &cat(&[&pk, &m2, &sig]), &mut out);
+        }
+    }
+    out.flush();
+}
+
+/// impl -> spec for the Elements jets that do not read the transaction (JetLib.tla, ElementsOut / TapTweakOk):
+/// hashing of outpoints, assets, amounts, nonces and annexes into a SHA-256 context, issuance entropy / asset /
+/// token arithmetic, tapleaf / tapbranch / taptweak.  `tweaks` valid taptweaks (a full-size point multiplication
+/// in the specification each) are recorded on top of the rejected ones.
+pub fn record_el_jets(per_jet: usize, tweaks: usize, path: &str) {
+    use simplicity::elements::bitcoin::key::Keypair;
+    use simplicity::elements::secp256k1_zkp as secp;
+    use simplicity::jet::{Elements, Jet};
+    use simplicity::node::CoreConstructible;
+    let mut rng = Rng::from_env(59);
+    let mut out = Out::file(path);
+    let envs = crate::c15::env_family(&mut Rng::from_env(66), 1);
+    let env = &envs[0].1;
+    type Bits = Vec<bool>;
+    let mut run = |name: &str, compact: &[bool], out: &mut Out| {
+        let j = *Elements::ALL.iter().find(|j| j.to_string() == name).unwrap_or_else(|| panic!("no jet {}", name));
+        let src = j.source_ty().to_final();
+        let bytes = bytes_from_bits(compact);
+        let input = Value::from_compact_bits(&mut simplicity::BitIter::from(&bytes[..]), &src).expect("input");
+        let inp = input.clone();
+        let res = guarded(|| types::Context::with_context(|ctx| {
+            let node = CN::jet(&ctx, &j);
+            let rn = node.finalize_unpruned().expect("one-jet program");
+            let mut mac = BitMachine::for_program(&rn).expect("machine");
+            mac.input(&inp).expect("input");
+            mac.exec(&rn, env).ok()
+        }));
+        let o = match res {
+            Ok(Some(v)) => bits_j(v.iter_padded()),
+            Ok(None) => json!("jetfailed"),
+            Err(p) => json!(format!("panic: {}", p)),
+        };
+        out.emit(&json!({"ev": "jet", "name": name, "in": bits_j(input.iter_padded()), "out": o}));
+    };
+    fn rand_bits(rng: &mut Rng, n: usize) -> Bits { (0..n).map(|_| rng.bool()).collect() }
+    fn cat(parts: &[&Bits]) -> Bits { parts.iter().flat_map(|p| p.iter().copied()).collect() }
+    fn bits_of(bytes: &[u8]) -> Bits { bytes.iter().flat_map(|b| (0..8).rev().map(move |i| (b >> i) & 1 == 1)).collect() }
+    let limit = 1u64 << 55;
+    // a context in compact bits: buffer occupancy random, or full / empty next to the counter limit
+    let ctx = |rng: &mut Rng, k: usize| -> Bits {
+        let cc = match k % 5 { 0 => 0, 1 => rng.next_u64() % 1000, 2 => limit - 1, 3 => limit, _ => rng.next_u64() % (1 << 40) };
+        let fill = if cc + 1 >= limit { Some(k % 2 == 0) } else { None };
+        let mut v = vec![];
+        for i in (0..=5u32).rev() {
+            let t = fill.unwrap_or_else(|| rng.bool());
+            v.push(t);
+            if t { v.extend(rand_bits(rng, 8 << i)); }
+        }
+        v.extend((0..64).rev().map(|i| (cc >> i) & 1 == 1));
+        v.extend(rand_bits(rng, 256));
+        v
+    };
+    // Conf A in compact bits: explicit (tag 1, the value) or confidential (tag 0, parity, 256 bits)
+    let conf = |rng: &mut Rng, explicit_bits: usize| -> Bits {
+        if rng.bool() { let mut v = vec![true]; v.extend(rand_bits(rng, explicit_bits)); v }
+        else { let mut v = vec![false, rng.bool()]; v.extend(rand_bits(rng, 256)); v }
+    };
+    for k in 0..(5 * per_jet) {
+        let c = ctx(&mut rng, k);
+        let opt256 = |rng: &mut Rng| -> Bits { if rng.bool() { let mut v = vec![true]; v.extend(rand_bits(rng, 256)); v } else { vec![false] } };
+        run("outpoint_hash", &cat(&[&c, &opt256(&mut rng), &rand_bits(&mut rng, 288)]), &mut out);
+        run("annex_hash", &cat(&[&c, &opt256(&mut rng)]), &mut out);
+        let nonce = if k % 3 == 0 { vec![false] } else { let mut v = vec![true]; v.extend(conf(&mut rng, 256)); v };
+        run("nonce_hash", &cat(&[&c, &nonce]), &mut out);
+        run("asset_amount_hash", &cat(&[&c, &conf(&mut rng, 256), &conf(&mut rng, 64)]), &mut out);
+    }
+    run("lbtc_asset", &[], &mut out);
+    for k in 0..(2 + per_jet) {
+        let e = match k { 0 => vec![false; 256], 1 => vec![true; 256], _ => rand_bits(&mut rng, 256) };
+        for name in ["calculate_asset", "calculate_explicit_token", "calculate_confidential_token", "build_tapleaf_simplicity"] { run(name, &e, &mut out); }
+        run("calculate_issuance_entropy", &cat(&[&e, &rand_bits(&mut rng, 32), &rand_bits(&mut rng, 256)]), &mut out);
+        let a = rand_bits(&mut rng, 256);
+        let mut b = a.clone(); let i = rng.below(256); b[i] = !b[i];
+        run("build_tapbranch", &cat(&[&a, &b]), &mut out);
+        run("build_tapbranch", &cat(&[&b, &a]), &mut out);
+        run("build_tapbranch", &cat(&[&a, &a]), &mut out);
+        run("build_tapbranch", &cat(&[&e, &rand_bits(&mut rng, 256)]), &mut out);
+    }
+    // taptweak: keys that are no x coordinate, or not reduced (the jet fails before multiplying); then valid keys
+    let p_bytes = { let mut v = vec![0xffu8; 32]; v[27] = 0xfe; v[28] = 0xff; v[29] = 0xff; v[30] = 0xfc; v[31] = 0x2f; v };
+    run("build_taptweak", &cat(&[&bits_of(&p_bytes), &rand_bits(&mut rng, 256)]), &mut out);
+    let sctx = secp::Secp256k1::new();
+    let mut done_off = false;
+    for k in 0..tweaks.max(1) {
+        let mut sk = [0u8; 32];
+        for b in sk.iter_mut() { *b = rng.next_u64() as u8; }
+        sk[0] &= 0x7f; sk[31] |= 1;
+        let kp = Keypair::from_seckey_slice(&sctx, &sk).unwrap();
+        let pk = bits_of(&kp.x_only_public_key().0.serialize());
+        if !done_off {
+            let mut off_key = pk.clone();
+            loop {
+                let i = 200 + rng.below(56); off_key[i] = !off_key[i];
+                if secp::XOnlyPublicKey::from_slice(&bytes_from_bits(&off_key)).is_err() { break; }
+            }
+            run("build_taptweak", &cat(&[&off_key, &rand_bits(&mut rng, 256)]), &mut out);
+            done_off = true;
+        }
+        if k < tweaks { run("build_taptweak", &cat(&[&pk, &rand_bits(&mut rng, 256)]), &mut out); }
     }
     out.flush();
 }
